@@ -1,6 +1,6 @@
 (** C10 — changing representation loses nothing: the obligations, written out in full. *)
 From Coq Require Import List NArith ZArith String.
-From SK Require Import lib.LGraph lib.StrJoin model.C10_Model model.C10_Text proof.C10_Text proof.C10_Proof proof.C10_Hydrogen proof.C10_Routes proof.C10_GmlWrite proof.C10_HRound proof.C10_Routes2 proof.C10_Reindex proof.C10_MolGraph proof.C10_Smart proof.C10_GmlEH proof.C10_Select proof.C10_MolOk proof.C10_Full proof.C10_Attrs proof.C10_Light proof.C10_ReindexEH.
+From SK Require Import lib.LGraph lib.StrJoin model.C10_Model model.C10_Text model.C10_Rxn proof.C10_Rxn proof.C10_ImpH proof.C10_HRoundIts proof.C10_Text proof.C10_Proof proof.C10_Hydrogen proof.C10_Routes proof.C10_GmlWrite proof.C10_HRound proof.C10_Routes2 proof.C10_Reindex proof.C10_MolGraph proof.C10_Smart proof.C10_GmlEH proof.C10_Select proof.C10_MolOk proof.C10_Full proof.C10_Attrs proof.C10_Light proof.C10_ReindexEH.
 Import ListNotations.
 Local Open Scope Z_scope.
 
@@ -397,3 +397,103 @@ Theorem C10_text_reads_record :
   forall (name : str) (r : grec), ~ In 10%N name -> rec_okb r = true -> text_to_nx (render name r) = Some (gml_to_nx r).
 Proof. exact text_to_nx_render. Qed.
 Print Assumptions C10_text_reads_record.
+
+(** THREE DOCUMENTED ROUTES to the rule of a reaction, end to end after RDKit, with and without explicit_hydrogen: from the
+    reaction string (smart_to_gml), from its full ITS (its_to_gml(rsmi_to_its(rsmi))) and from the centre only
+    (its_to_gml(rsmi_to_its(rsmi, core=True)) — "whether the full ITS or only its centre is supplied").  For every
+    atom-balanced pair of molecule graphs and every enumeration of their bonds, each of the three rules reads back as the
+    reaction centre c of ITSGraph(r, p): exactly its atoms, element and both charges at each, exactly its (before, after) bond
+    dictionaries — so the three rules are equivalent.  (core=True, ids kept; explicit_hydrogen either way: a centre carries no
+    hcount, so the explicit_hydrogen export only adds the unchanged bonds to the context.) *)
+Theorem C10_three_routes :
+  forall (r p : gr) (eo : list (N * N)) (explicit_h : bool),
+    mol_ok r = true -> mol_ok p = true -> balanced r p = true -> eo_covers r p eo = true ->
+    let c := get_rc (its_construct r p eo) in
+    let reads_c := fun X : gr =>
+      (forall n, has_node X n = has_node c n) /\
+      (forall n a, label c n = Some a ->
+         label X n = Some (gml_node n (tg_el (tG_of a)) (tg_ch (tG_of a)) (tg_ch (tH_of a)))) /\
+      (forall u v, adj X u v = adj c u v) in
+    reads_c (gml_to_its (smart_to_gml r p eo true false explicit_h)) /\
+    reads_c (gml_to_its (its_to_gml (rsmi_to_its r p eo false false) true false explicit_h)) /\
+    reads_c (gml_to_its (its_to_gml (rsmi_to_its r p eo true false) true false explicit_h)).
+Proof. exact three_routes. Qed.
+Print Assumptions C10_three_routes.
+
+(** rsmi_to_its(explicit_hydrogen=True): making the hydrogens of the ITS explicit (h_to_explicit in ITS mode) keeps its total
+    hydrogen count — any two graphs, any enumeration. *)
+Theorem C10_rsmi_to_its_total_h :
+  forall (r p : gr) (eo : list (N * N)),
+    total_h (rsmi_to_its r p eo false true) = total_h (rsmi_to_its r p eo false false).
+Proof. exact rsmi_to_its_total_h. Qed.
+Print Assumptions C10_rsmi_to_its_total_h.
+
+(** graph_to_rsmi / its_to_rsmi / gml_to_smart up to the molecules handed to RDKit.  (i) When the reaction centre contains no
+    hydrogen atom the explicit_hydrogen flag is irrelevant: both settings hand RDKit graph_to_mol r and graph_to_mol p.
+    (ii) Otherwise the list of preserved atom maps is exactly the atom maps of the hydrogens of the centre, in node order
+    (a hydrogen without the key makes the call fail: rc_h_maps = None), and (iii) on graphs that carry the keys
+    implicit_hydrogen subscripts, the preserve path is the function C10_preserve_bare_h_refuted speaks about. *)
+Theorem C10_graph_to_rsmi_flags :
+  (forall (r p its : gr) (explicit_h : bool), no_H (get_rc its) = true ->
+     graph_to_rsmi_mols r p its explicit_h = Some (graph_to_mol r, graph_to_mol p)) /\
+  (forall (rc : gr) (l : list Z), rc_h_maps rc = Some l ->
+     l = map (fun q : N * natt => dflt (a_am (snd q)) 0) (filter (fun q : N * natt => el_is_H (snd q)) (gnodes rc))) /\
+  (forall (g : gr) (l : list Z), imph_keys_ok g = true -> graph_to_smi_mol_k g l = graph_to_smi_mol g l).
+Proof. split; [exact graph_to_rsmi_no_H|split; [exact rc_h_maps_spec|exact graph_to_smi_mol_k_ok]]. Qed.
+Print Assumptions C10_graph_to_rsmi_flags.
+
+(** implicit_hydrogen(graph, preserve_atom_maps, reindex=True) — the renumbering tail: for every networkx graph the result is
+    implicit_hydrogen(graph, preserve_atom_maps) renumbered by f = position (from 1) in node order: f is injective on the atoms
+    kept, the result has exactly the atoms f n, at f n the dictionary of n with atom_map := f n, and between f u and f v
+    exactly the bond of (u, v). *)
+Theorem C10_implicit_hydrogen_reindex :
+  forall (g : gr) (l : list Z), gwfb g = true ->
+    let g1 := implicit_hydrogen g l in
+    let f := mapget (enum_from 1%N (node_ids g1)) in
+    let R := implicit_hydrogen_reindex g l in
+    (forall a b, In a (node_ids g1) -> In b (node_ids g1) -> f a = f b -> a = b) /\
+    (forall k, has_node R k = true <-> exists n, In n (node_ids g1) /\ k = f n) /\
+    (forall n a, label g1 n = Some a -> label R (f n) = Some (set_am (Z.of_N (f n)) a)) /\
+    (forall u v, In u (node_ids g1) -> In v (node_ids g1) -> adj R (f u) (f v) = adj g1 u v).
+Proof. exact implicit_hydrogen_reindex_spec. Qed.
+Print Assumptions C10_implicit_hydrogen_reindex.
+
+(** HYDROGENS, EITHER MODE (its=False for molecule graphs, its=True for ITS graphs as rsmi_to_its(explicit_hydrogen=True) uses
+    it; repaired code 61e730e).  [hexp_count its a] = the number of hydrogens made explicit at an atom (its=True and typesGH
+    present: min(hcount, product-half hcount)); [h_lowered_gen] = what h_to_explicit leaves at the atom (hcount and the
+    reactant half — its=True: both halves — of typesGH lowered by that number); [fin_edge] = the final normalize_edge_orders
+    of the ITS mode (scalar order o -> (o, o), missing standard_order -> 0), the identity otherwise.
+    Skeleton: for every networkx graph, any node list, either mode: old atoms keep everything but the lowered counts, bonds
+    between old atoms keep their dictionary up to [fin_edge], every new node has an id above every id of the graph and is a
+    hydrogen single-bonded to exactly one old atom. *)
+Theorem C10_h_explicit_skeleton_any_mode :
+  forall (g : gr) (nodes : option (list N)) (its : bool), gwfb g = true ->
+    let E := h_to_explicit g nodes its in
+    (forall n a, label g n = Some a -> label E n = Some (if mem n (exp_nodes g nodes) then h_lowered_gen its a else a)) /\
+    (forall u v, In u (node_ids g) -> In v (node_ids g) -> adj E u v = option_map (fin_edge its) (adj g u v)) /\
+    (forall h, In h (node_ids E) -> ~ In h (node_ids g) ->
+       (max_id g < h)%N /\ label E h = Some H_att /\
+       exists m, In m (node_ids g) /\ forall w, adj E h w = if N.eqb w m then Some (fin_edge its e_single) else None).
+Proof. exact h_explicit_skeleton_gen. Qed.
+Print Assumptions C10_h_explicit_skeleton_any_mode.
+
+(** Round trip, either mode: for every networkx graph without explicit hydrogens and any node list, h_to_implicit after
+    h_to_explicit has the same nodes in the same order, at every atom the same dictionary except that the typesGH halves
+    lowered by h_to_explicit stay lowered ([h_restore_gen]: hcount itself IS restored), and the same bond dictionaries up to
+    the normalisation [fin_edge] of the ITS mode.  (Closes the round-2/3 "left undone" item: its=True beyond the count.) *)
+Theorem C10_h_roundtrip_any_mode :
+  forall (g : gr) (nodes : option (list N)) (its : bool), gwfb g = true -> no_H g = true ->
+    let g' := h_to_implicit (h_to_explicit g nodes its) in
+    node_ids g' = node_ids g /\
+    (forall n a, label g n = Some a ->
+       label g' n = Some (if mem n (exp_nodes g nodes) then h_restore_gen its a else a)) /\
+    (forall u v, adj g' u v = option_map (fin_edge its) (adj g u v)).
+Proof. exact h_roundtrip_gen. Qed.
+Print Assumptions C10_h_roundtrip_any_mode.
+
+(** h_to_implicit commutes with every map on edge attributes (it never reads them): in particular with the
+    normalize_edge_orders that ends h_to_explicit(its=True). *)
+Theorem C10_h_to_implicit_edge_natural :
+  forall (F : eatt -> eatt) (G : gr), h_to_implicit (emap F G) = emap F (h_to_implicit G).
+Proof. exact h_to_implicit_emap. Qed.
+Print Assumptions C10_h_to_implicit_edge_natural.
